@@ -80,6 +80,7 @@ def check(repo, res, tier):
     _check_event_init(repo, res)
     _check_transition_init(repo, res)
     _check_routes(repo, res)
+    _check_accumulating(repo, res)
     _check_setters(repo, res)
     _check_split(repo, res)
     cls = M.sim_class(repo)
@@ -290,15 +291,53 @@ def _check_routes(repo, res):
     res.floor("API routes compared", n, 11)
     # wrong-type inputs are rejected by the legacy routes
     for meth, bad_tt in (("add_transition", "B"), ("add_birth_death", "T"), ("add_ode", "T")):
-        kind, me, f = _run_add(repo, meth, mk_transition(transition_type=bad_tt, origin="S", destination="I" if bad_tt == "T" else None, equation=rate))
+        try:
+            kind, me, f = _run_add(repo, meth, mk_transition(transition_type=bad_tt, origin="S", destination="I" if bad_tt == "T" else None, equation=rate))
+        except Undecided as e:
+            res.undecided("R-NORM", "pygom/model/base_ode_model.py::BaseOdeModel.%s" % meth, "rejects(%s)" % bad_tt, "outside the modelled subset: %s" % e)
+            continue
         res.check(kind == "raise", "R-NORM", f, "rejects(%s)" % bad_tt, "%s rejects a %s-type input" % (meth, bad_tt),
                   "%s accepts a %s-type input" % (meth, bad_tt))
     # add_ode keeps the object as is
     ode = mk_transition(transition_type="ODE", origin="S", equation=rate)
-    kind, me, f = _run_add(repo, "add_ode", ode)
+    try:
+        kind, me, f = _run_add(repo, "add_ode", ode)
+    except Undecided as e:
+        res.undecided("R-NORM", "pygom/model/base_ode_model.py::BaseOdeModel.add_ode", "route(ODE,add_ode)", "outside the modelled subset: %s" % e)
+        return
     res.check(kind == "return" and len(me.attrs["_odeList"]) == 1 and me.attrs["_odeList"][0] is ode and not me.attrs["_eventList"],
               "R-NORM", f, "route(ODE,add_ode)", "add_ode stores the ODE transition itself in the ODE list",
               "add_ode does not store the given ODE transition in the ODE list", node=f.node)
+
+
+def _check_accumulating(repo, res):
+    """a second process / a second explicit term for the same state is added, not substituted"""
+    cls = M.sim_class(repo)
+    rate1, rate2 = Tok("r1", "sym"), Tok("r2", "sym")
+    specs = [("add_ode", "_odeList", lambda r: mk_transition(transition_type="ODE", origin="S", equation=r)),
+             ("add_transition", "_eventList", lambda r: mk_transition(transition_type="T", origin="S", destination="I", equation=r)),
+             ("add_birth_death", "_eventList", lambda r: mk_transition(transition_type="D", origin="S", equation=r)),
+             ("add_event", "_eventList", lambda r: mk_event(transition_list=[mk_transition(transition_type="T", origin="S", destination="I")], rate=r))]
+    for meth, store, mk in specs:
+        f = repo.resolve_method(cls, meth)
+        me = _model_self()
+        try:
+            ab = Abs({"TransitionType": TT}, TYPES, _model_summaries(), me)
+            k1, _ = ab.run_function(f.node, {f.params[1]: mk(rate1)})
+            ab = Abs({"TransitionType": TT}, TYPES, _model_summaries(), me)
+            k2, _ = ab.run_function(f.node, {f.params[1]: mk(rate2)})
+        except Undecided as e:
+            res.undecided("R-NORM", f, "accumulates", "outside the modelled subset: %s" % e)
+            continue
+        items = me.attrs[store]
+
+        def rate_of(x):
+            return x.attrs.get("rate") if x.cls == "Event" else x.attrs.get("_equation")
+        got = [rate_of(x) for x in items]
+        res.check(k1 == k2 == "return" and got == [rate1, rate2], "R-NORM", f, "accumulates",
+                  "two %s calls for the same state(s) keep both processes, in order" % meth,
+                  "after two %s calls on the same state(s) the model holds %s instead of both [r1, r2]: the same set of processes "
+                  "entered term by term gives a different ODE" % (meth, got), node=f.node)
 
 
 def _check_setters(repo, res):
